@@ -17,6 +17,10 @@ def _wrap(t, s):
 
 def call_method(I, st, recv, name, args, kwargs, fr, k):
     t = recv.t
+    folded = fold_concrete(I, st, recv, name, args, kwargs)
+    if folded is not None:
+        B.note(I, "constant folding of pure str/bytes methods by the engine's interpreter")
+        return k(st, I.const_val(folded) if not isinstance(folded, list) else B.new_list(I, st, [I.const_val(x) for x in folded]))
     isstr = z3.Or(is_str(t), is_byt(t))
     def on_str(s2):
         fn = STR_METHODS.get(name)
@@ -104,3 +108,281 @@ def r_dict_get(I, st, recv, args, kwargs, fr, k):
 STR_METHODS = {"upper": m_upper, "lower": m_lower, "startswith": m_startswith, "endswith": m_endswith,
                "format": m_format}
 REF_METHODS = {"items": r_items, "copy": r_dict_copy, "get": r_dict_get}
+
+
+# ------------------------------------------------------------------ more str/bytes methods
+def _conc(I, st, v):
+    """python str/bytes of a concrete value, else None"""
+    ck = B.concrete_key(I, st, v) if isinstance(v, Sym) else None
+    return ck if isinstance(ck, (str, bytes)) else None
+
+
+def _charset_re(chars):
+    """z3 regex matching any single character of the python string `chars`"""
+    if not chars:
+        return z3.Empty(z3.ReSort(z3.StringSort()))
+    parts = [z3.Re(z3.Unit(z3.CharVal(ord(c) if isinstance(c, str) else c))) for c in chars]
+    return parts[0] if len(parts) == 1 else z3.Union(*parts)
+
+
+WS = " \t\n\r\x0b\x0c"
+
+
+def _strip(mode):
+    def f(I, st, recv, args, kwargs, fr, k):
+        s = _s(recv.t)
+        chars = WS
+        if args and not z3.is_true(z3.simplify(is_none(B.as_sym(I, st, args[0]).t))):
+            c = _conc(I, st, args[0])
+            if c is None:
+                raise Unsupported("strip with symbolic character set")
+            chars = c if isinstance(c, str) else c.decode("latin-1")
+        else:
+            B.note(I, "str.strip() without argument strips ASCII white space only (Unicode spaces not modelled)")
+        cs = _charset_re(chars)
+        r = z3.String(I.w.fresh("strip"))
+        a = z3.String(I.w.fresh("lead")); b = z3.String(I.w.fresh("trail"))
+        one = cs
+        facts = [s == z3.Concat(a, r, b), z3.InRe(a, z3.Star(cs)), z3.InRe(b, z3.Star(cs))]
+        if mode in ("strip", "lstrip"):
+            facts.append(z3.Not(z3.InRe(z3.SubString(r, 0, 1), one)))
+        else:
+            facts.append(a == z3.StringVal(""))
+        if mode in ("strip", "rstrip"):
+            facts.append(z3.Not(z3.InRe(z3.SubString(r, z3.Length(r) - 1, 1), one)))
+        else:
+            facts.append(b == z3.StringVal(""))
+        st.fact(*facts)
+        return k(st, Sym(_wrap(recv.t, r)))
+    return f
+
+
+def m_partition(last):
+    def f(I, st, recv, args, kwargs, fr, k):
+        s = _s(recv.t)
+        sep = _s(B.as_sym(I, st, args[0]).t)
+        idx = z3.LastIndexOf(s, sep) if last else z3.IndexOf(s, sep, 0)
+        found = idx >= 0
+        n = z3.Length(s); m = z3.Length(sep)
+        empty = z3.StringVal("")
+        if last:
+            a = z3.If(found, z3.SubString(s, 0, idx), empty)
+            mid = z3.If(found, sep, empty)
+            b = z3.If(found, z3.SubString(s, idx + m, n - idx - m), s)
+        else:
+            a = z3.If(found, z3.SubString(s, 0, idx), s)
+            mid = z3.If(found, sep, empty)
+            b = z3.If(found, z3.SubString(s, idx + m, n - idx - m), empty)
+        w = lambda x: Sym(_wrap(recv.t, x))
+        return k(st, Tup([w(a), w(mid), w(b)]))
+    return f
+
+
+def m_find(last, raising):
+    def f(I, st, recv, args, kwargs, fr, k):
+        s = _s(recv.t)
+        sub = _s(B.as_sym(I, st, args[0]).t)
+        if len(args) > 1:
+            raise Unsupported("find with start/end")
+        idx = z3.LastIndexOf(s, sub) if last else z3.IndexOf(s, sub, 0)
+        if raising:
+            return I.branch(st, idx >= 0, lambda s2: k(s2, Sym(mk_int(idx))), lambda s2: I.raise_(s2, "builtins.ValueError", "substring not found"))
+        return k(st, Sym(mk_int(idx)))
+    return f
+
+
+def m_replace(I, st, recv, args, kwargs, fr, k):
+    s = _s(recv.t)
+    a = _s(B.as_sym(I, st, args[0]).t); b = _s(B.as_sym(I, st, args[1]).t)
+    if len(args) > 2:
+        raise Unsupported("replace with count")
+    ca = _conc(I, st, args[0])
+    if ca is not None and len(ca) == 0:
+        raise Unsupported("replace of empty string")
+    r = z3.SeqRef(z3.Z3_mk_seq_replace_all(s.ctx_ref(), s.as_ast(), a.as_ast(), b.as_ast()), s.ctx)
+    return k(st, Sym(_wrap(recv.t, r)))
+
+
+def _pred(rx_src, note_txt=None):
+    def f(I, st, recv, args, kwargs, fr, k):
+        from . import regex
+        lang = regex.language(regex.parse_literal(rx_src), "fullmatch")
+        if note_txt:
+            B.note(I, note_txt)
+        return k(st, Sym(mk_bool(z3.InRe(_s(recv.t), lang))))
+    return f
+
+
+def m_isascii(I, st, recv, args, kwargs, fr, k):
+    s = _s(recv.t)
+    return k(st, Sym(mk_bool(z3.InRe(s, z3.Star(z3.Range(z3.Unit(z3.CharVal(0)), z3.Unit(z3.CharVal(127))))))))
+
+
+def m_decode(I, st, recv, args, kwargs, fr, k):
+    """bytes.decode(): exact for ASCII content; non-ASCII bytes: UnicodeDecodeError possible for utf-8/ascii (strict)."""
+    s = _s(recv.t)
+    enc = _conc(I, st, args[0]) if args else "utf-8"
+    errors = _conc(I, st, args[1]) if len(args) > 1 else kwargs.get("errors") and _conc(I, st, kwargs["errors"]) or "strict"
+    ascii_only = z3.InRe(s, z3.Star(z3.Range(z3.Unit(z3.CharVal(0)), z3.Unit(z3.CharVal(127)))))
+    B.note(I, "bytes.decode: identity on ASCII content; non-ASCII content yields an opaque string or UnicodeDecodeError")
+    def ok(s2):
+        return k(s2, Sym(mk_str(s)))
+    def non_ascii(s2):
+        outs = []
+        if enc in ("latin-1", "latin1", "iso-8859-1"):
+            return k(s2, Sym(mk_str(s)))
+        s3 = s2.fork()
+        if errors == "strict":
+            outs += I.raise_(s3, "builtins.UnicodeDecodeError", "decode")
+        r = z3.String(I.w.fresh("decoded"))
+        return outs + k(s2, Sym(mk_str(r)))
+    return I.branch(st, ascii_only, ok, non_ascii)
+
+
+def m_encode2(I, st, recv, args, kwargs, fr, k):
+    """str.encode(): identity on ASCII; non-ASCII: opaque bytes (utf-8) or UnicodeEncodeError (ascii/latin-1, surrogates)."""
+    s = get_s(recv.t)
+    enc = (_conc(I, st, args[0]) if args else "utf-8") or "utf-8"
+    errors = _conc(I, st, args[1]) if len(args) > 1 else "strict"
+    ascii_only = z3.InRe(s, z3.Star(z3.Range(z3.Unit(z3.CharVal(0)), z3.Unit(z3.CharVal(127)))))
+    B.note(I, "str.encode: identity on ASCII content; non-ASCII content yields opaque bytes (length >= len) or UnicodeEncodeError")
+    def ok(s2):
+        return k(s2, Sym(mk_byt(s)))
+    def non_ascii(s2):
+        outs = []
+        if not (enc.lower().replace("-", "") == "utf8" and errors == "surrogatepass"):
+            s3 = s2.fork()
+            outs += I.raise_(s3, "builtins.UnicodeEncodeError", "encode")
+        r = z3.String(I.w.fresh("encoded"))
+        s2.fact(z3.Length(r) >= z3.Length(s))
+        return outs + k(s2, Sym(mk_byt(r)))
+    return I.branch(st, ascii_only, ok, non_ascii)
+
+
+def m_split(I, st, recv, args, kwargs, fr, k):
+    """s.split(sep): a fresh list of >= 1 strings, none containing sep; joined by sep they give s back."""
+    if not args or z3.is_true(z3.simplify(is_none(B.as_sym(I, st, args[0]).t))):
+        raise Unsupported("split() on white space")
+    if len(args) > 1 or kwargs:
+        raise Unsupported("split with maxsplit")
+    s = _s(recv.t); sep = _s(B.as_sym(I, st, args[0]).t)
+    loc = I.alloc(st, "builtins.list")
+    n = st.read(LEN, loc)
+    els = st.read(ELS, loc)
+    j = z3.Int(I.w.fresh("j"))
+    wrap_is = is_str if z3.is_true(z3.simplify(is_str(recv.t))) else (lambda t: z3.Or(is_str(t), is_byt(t)))
+    st.fact(n >= 1, z3.Implies(z3.Not(z3.Contains(s, sep)), z3.And(n == 1, z3.Select(els, 0) == recv.t)),
+            z3.Implies(z3.Contains(s, sep), n >= 2))
+    st.fact(z3.ForAll([j], z3.Implies(z3.And(j >= 0, j < n), z3.And(wrap_is(z3.Select(els, j)),
+                                                                    z3.Not(z3.Contains(_s(z3.Select(els, j)), sep)),
+                                                                    z3.Contains(s, _s(z3.Select(els, j)))))))
+    st.fact(split_of(z3.Select(st.arr(ELS), loc), n, mk_str(sep)) == recv.t)
+    B.note(I, "str.split(sep): fresh list of >=1 pieces without sep; sep.join(pieces) is the original (uninterpreted join/split inverse)")
+    return k(st, Sym(mk_ref(loc), hint="builtins.list"))
+
+
+split_of = z3.Function("join_of", IntArr, z3.IntSort(), V, V)
+
+
+def m_join(I, st, recv, args, kwargs, fr, k):
+    sep = recv
+    items = B.concrete_items(I, st, args[0])
+    if items is not None:
+        if not items:
+            return k(st, Sym(_wrap(sep.t, z3.StringVal(""))))
+        parts = []
+        for i, it in enumerate(items):
+            it = B.as_sym(I, st, it)
+            if i:
+                parts.append(_s(sep.t))
+            parts.append(_s(it.t))
+        bad = z3.Or([z3.Not(z3.Or(is_str(B.as_sym(I, st, it).t), is_byt(B.as_sym(I, st, it).t))) for it in items])
+        res = Sym(_wrap(sep.t, z3.Concat(*parts) if len(parts) > 1 else parts[0]))
+        return I.branch(st, bad, lambda s2: I.raise_(s2, "builtins.TypeError", "join of non-str"), lambda s2: k(s2, res))
+    v = args[0]
+    if isinstance(v, Sym):
+        loc = get_loc(v.t)
+        n = st.read(LEN, loc)
+        r = split_of(st.read(ELS, loc), n, mk_str(_s(sep.t)))
+        B.note(I, "sep.join(list of symbolic length): uninterpreted function of (elements, length, sep); inverse of split")
+        out = z3.String(I.w.fresh("joined"))
+        st.fact(z3.Or(r == _wrap(sep.t, out), z3.Not(z3.Or(is_str(r), is_byt(r)))))
+        return k(st, Sym(z3.If(z3.Or(is_str(r), is_byt(r)), r, _wrap(sep.t, out))))
+    raise Unsupported(f"join over {v!r}")
+
+
+def m_startswith_multi(suffix):
+    def f(I, st, recv, args, kwargs, fr, k):
+        items = B.concrete_items(I, st, args[0]) if not isinstance(args[0], Sym) else [args[0]]
+        if items is None:
+            raise Unsupported("startswith over symbolic tuple")
+        s = _s(recv.t)
+        alts = []
+        for it in items:
+            a = _s(B.as_sym(I, st, it).t)
+            alts.append(z3.SuffixOf(a, s) if suffix else z3.PrefixOf(a, s))
+        return k(st, Sym(mk_bool(z3.Or(alts) if alts else z3.BoolVal(False))))
+    return f
+
+
+def m_count(I, st, recv, args, kwargs, fr, k):
+    s = _s(recv.t)
+    sub = _s(B.as_sym(I, st, args[0]).t)
+    n = z3.Int(I.w.fresh("count"))
+    st.fact(n >= 0, n <= z3.Length(s), (n > 0) == z3.Contains(s, sub) if not z3.is_true(z3.simplify(z3.Length(sub) == 0)) else n >= 0)
+    B.note(I, "str.count(sub): an integer in [0, len]; positive iff sub occurs")
+    return k(st, Sym(mk_int(n)))
+
+
+def m_title(I, st, recv, args, kwargs, fr, k):
+    r = z3.String(I.w.fresh("title"))
+    st.fact(z3.Length(r) == z3.Length(_s(recv.t)))
+    B.note(I, "str.title: opaque string of the same length")
+    return k(st, Sym(_wrap(recv.t, r)))
+
+
+STR_METHODS.update({
+    "strip": _strip("strip"), "lstrip": _strip("lstrip"), "rstrip": _strip("rstrip"),
+    "partition": m_partition(False), "rpartition": m_partition(True),
+    "find": m_find(False, False), "rfind": m_find(True, False), "index": m_find(False, True),
+    "replace": m_replace, "isascii": m_isascii, "decode": m_decode, "encode": m_encode2,
+    "isdigit": _pred(r"[0-9]+", "str.isdigit: ASCII digits only (Unicode digits not modelled)"),
+    "split": m_split, "join": m_join, "startswith": m_startswith_multi(False), "endswith": m_startswith_multi(True),
+    "count": m_count, "title": m_title,
+})
+
+
+def fold_concrete(I, st, recv, name, args, kwargs):
+    """All-concrete str/bytes method call: evaluate with the engine interpreter's own str/bytes
+    (assumption: these pure methods agree between the engine's CPython and the one running urllib3)."""
+    r = _conc(I, st, recv)
+    if r is None:
+        return None
+    cargs = []
+    for a in args:
+        if isinstance(a, Tup):
+            sub = [B.concrete_key(I, st, x) for x in a.items]
+            if any(x is B._NOKEY for x in sub):
+                return None
+            cargs.append(tuple(sub))
+            continue
+        if not isinstance(a, Sym):
+            return None
+        c = B.concrete_key(I, st, a)
+        if c is B._NOKEY:
+            return None
+        cargs.append(c)
+    if kwargs:
+        return None
+    if name not in FOLDABLE:
+        return None
+    try:
+        out = getattr(r, name)(*cargs)
+    except Exception:
+        return None
+    return out
+
+
+FOLDABLE = {"upper", "lower", "strip", "lstrip", "rstrip", "startswith", "endswith", "encode", "decode", "zfill", "hex", "title",
+            "replace", "find", "rfind", "isdigit", "isascii", "count", "partition", "rpartition", "split", "join", "format", "index",
+            "casefold", "capitalize"}
